@@ -3,7 +3,7 @@
 # (mutation list: see the end of this file)
 PROP = "C19"
 READY = False
-COQ_PROPS = []
+COQ_PROPS = ['Properties_C19']
 RULE = ''
 TRUSTED = []
 ASSUMPTIONS = []
@@ -149,6 +149,308 @@ def oracle_ledger(case, irecs, mrecs):
             fails.append(dict(sig='model_ledger_rejects', what='the effect log of the MODEL is rejected by the ledger at op %d' % i, op_index=i))
     return fails
 
-FAMILIES = [dict(name='ledger', harness='drv_ledger.cpp', extract='Extract_ledger.v', model='model_ledger', gen=gen_ledger, oracle=oracle_ledger)]
+
+# ---------------------------------------------------------------------------------------------------------------------
+# family "vsem": value-semantics scripts on the implementation alone (differential TESTING with sanitizers, no model):
+# every sketch family, tracking allocator, instrumented items, scripted exceptions from the item copy constructor.
+# The oracle gives every register a "value token": a copy/move/assignment transfers the token, any operation on a
+# register gives it a fresh one; all digests (hash of the serialized image) taken under one token must be equal.
+# ---------------------------------------------------------------------------------------------------------------------
+KIND_NAMES = {0: 'kll', 1: 'tuple', 2: 'fi', 3: 'req', 4: 'var_opt', 5: 'quantiles', 6: 'ebpps', 7: 'hll', 8: 'cpc', 9: 'theta'}
+VS_PARAMS = {
+    0: lambda rng: [rng.choice([8, 9, 20, 200]), 0],
+    1: lambda rng: [rng.choice([5, 6]), rng.randrange(4)],
+    2: lambda rng: [rng.choice([3, 4, 6]), 3],
+    3: lambda rng: [rng.choice([4, 6, 12]), rng.randrange(2)],
+    4: lambda rng: [rng.choice([4, 16, 50]), rng.randrange(4)],
+    5: lambda rng: [rng.choice([2, 4, 16, 128]), 0],
+    6: lambda rng: [rng.choice([1, 3, 10]), 0],
+    7: lambda rng: [rng.choice([4, 7, 8, 10, 12]), rng.randrange(3)],
+    8: lambda rng: [rng.choice([4, 8, 11]), 0],
+    9: lambda rng: [rng.choice([5, 6, 9]), rng.randrange(4)],
+}
+HAS_MERGE = {0, 2, 3, 5, 6}
+HAS_RESET = {1, 4, 6, 7, 9}
+ITEM_KINDS = {0, 1, 2, 3, 4, 5, 6}
+
+def vs_update(rng, kind, r, universe):
+    return [2, r, rng.randrange(universe), rng.choice([1, 1, 2, 3, 7]), rng.randrange(2)]
+
+def gen_vsem(rng, tier):
+    ncases = 140 if tier == 'quick' else 1400
+    cases = []
+    for ci in range(ncases):
+        kind = ci % 10
+        throwing = (ci // 10) % 3 == 2 and kind in ITEM_KINDS
+        ops = []; tags = set([KIND_NAMES[kind]]); live = set()
+        universe = rng.choice([10, 100, 3000])
+        budget = rng.choice([30, 80, 200]) if tier == 'quick' else rng.choice([30, 80, 200, 600])
+        armed = False
+        def free():
+            f = [r for r in range(5) if r not in live]
+            return rng.choice(f) if f else None
+        def some():
+            return rng.choice(sorted(live)) if live else None
+        def follow(s):
+            c = [r for r in live if r != s]
+            if c and rng.random() < 0.5 and kind != 7:
+                return [1, rng.choice(c)], False
+            return [0, 0], True
+        def digests():
+            for r in sorted(live):
+                ops.append([14, r])
+        ops.append([1, 0, kind] + VS_PARAMS[kind](rng)); live.add(0)
+        while len(ops) < budget:
+            x = rng.random()
+            if throwing and not armed and len(ops) > budget // 3 and live:
+                # one scripted copy failure per case, in front of an operation that copies items
+                n = rng.choice([1, 1, 2, 3, 5, 8, 13, 30])
+                r = some(); s = some()
+                cand = [[3, free(), s], [5, r, s], [11, r], [2, r, rng.randrange(universe), 1, 0], [13, r, s, some()]]
+                if kind in HAS_MERGE and r != s: cand.append([7, r, s])
+                op = rng.choice(cand)
+                if op[0] == 3 and op[1] is None: continue
+                ops.append([20, n]); ops.append(op); armed = True
+                tags.add('throw:' + {3: 'copy', 5: 'copy-assign', 11: 'copy', 2: 'update', 13: 'chain', 7: 'merge'}[op[0]])
+                # the driver cannot know whether the copy succeeded: assume it did only for bookkeeping of free registers
+                if op[0] == 3: live.add(op[1])
+                digests()
+                continue
+            if x < 0.05:
+                r = free()
+                if r is None: continue
+                ops.append([1, r, kind] + VS_PARAMS[kind](rng)); live.add(r)
+            elif x < 0.45:
+                r = some()
+                if r is None: continue
+                for _ in range(rng.choice([1, 3, 10, 40, 120])):
+                    ops.append(vs_update(rng, kind, r, universe))
+                tags.add('updates')
+            elif x < 0.55:
+                s = some(); r = free()
+                if r is None or s is None: continue
+                ops.append([3, r, s]); live.add(r); tags.add('copy'); digests()
+                # mutate one side, the other must not change
+                t = rng.choice([r, s])
+                for _ in range(rng.choice([1, 5, 30])):
+                    ops.append(vs_update(rng, kind, t, universe))
+                digests()
+            elif x < 0.62:
+                s = some(); r = free()
+                if r is None or s is None: continue
+                ops.append([14, s]); f, gone = follow(s)
+                ops.append([4, r, s] + f); live.add(r)
+                if gone: live.discard(s)
+                tags.add('move'); digests()
+            elif x < 0.70:
+                r = some(); s = some()
+                if r is None or (kind == 7 and r == s): continue
+                ops.append([5, r, s]); tags.add('self-assign' if r == s else 'copy-assign'); digests()
+            elif x < 0.77:
+                r = some(); s = some()
+                if r is None: continue
+                if r == s:
+                    ops.append([6, r, s, 0, 0]); tags.add('self-move')
+                    # a self-moved object holds an unspecified value: it is only assigned to or destroyed
+                    o2 = sorted(q for q in live if q != r)
+                    if o2 and rng.random() < 0.6: ops.append([5, r, rng.choice(o2)])
+                    elif o2: ops.append([10, r]); live.discard(r)
+                    else:
+                        ops.append([10, r]); ops.append([1, r, kind] + VS_PARAMS[kind](rng))
+                else:
+                    ops.append([14, s]); f, gone = follow(s)
+                    ops.append([6, r, s] + f)
+                    if gone: live.discard(s)
+                    tags.add('move-assign')
+                digests()
+            elif x < 0.84:
+                r = some(); s = some()
+                if r is None or r == s or kind not in HAS_MERGE: continue
+                if rng.random() < 0.5:
+                    ops.append([7, r, s]); tags.add('merge')
+                else:
+                    f, gone = follow(s); ops.append([8, r, s] + f)
+                    if gone: live.discard(s)
+                    tags.add('merge-move')
+                digests()
+            elif x < 0.87:
+                r = some()
+                if r is None: continue
+                ops.append([rng.choice([9, 12]), r]); tags.add('reset/trim')
+            elif x < 0.90:
+                r = some()
+                if r is None or len(live) < 2: continue
+                ops.append([10, r]); live.discard(r); tags.add('destroy'); digests()
+            elif x < 0.94:
+                r = some()
+                if r is None: continue
+                ops.append([15, r]); tags.add('query'); digests()
+            elif x < 0.97:
+                if not live: continue
+                abc = [some(), some(), some()]
+                if kind == 7 and len(set(abc)) < 3: continue
+                ops.append([13] + abc); tags.add('chain'); digests()
+            else:
+                s = some(); r = free()
+                if r is None or s is None or kind in (1, 6, 9): continue
+                ops.append([16, r, s]); live.add(r); tags.add('roundtrip')
+        digests()
+        ops.append([99])
+        cases.append(dict(id='vs%d' % ci, ops=ops, tags=sorted(tags), kind=kind))
+    # dedicated self-assignment cases for hll_sketch (known finding hll_self_assign until fixes/03_hll_self_assign is applied)
+    for j in range(2 if tier == 'quick' else 6):
+        lg = rng.choice([4, 8, 12]); n = rng.choice([0, 3, 40, 600])
+        ops = [[1, 0, 7, lg, rng.randrange(3)]] + [[2, 0, rng.randrange(10000), 1, 0] for _ in range(n)] + [[14, 0], [5, 0, 0], [14, 0], [99]]
+        cases.append(dict(id='vshllself%d' % j, ops=ops, tags=['hll', 'self-assign'], kind=7))
+        # assignment to a moved-from hll_sketch (finding hll_assign_to_moved_from)
+        ops = [[1, 0, 7, lg, rng.randrange(3)], [1, 1, 7, rng.choice([4, 8, 12]), 0]] + [[2, rng.randrange(2), rng.randrange(10000), 1, 0] for _ in range(n)] + \
+              [[14, 0], [14, 1], rng.choice([[4, 2, 0, 1, 1], [6, 1, 0, 1, 1]]), [14, 0], [14, 1], [99]]
+        cases.append(dict(id='vshllmoved%d' % j, ops=ops, tags=['hll', 'assign-to-moved-from'], kind=7))
+    return cases
+
+def oracle_vsem(case, irecs, mrecs):
+    fails = []
+    kind = KIND_NAMES.get(case.get('kind', -1), 'k')
+    if 'kind' not in case:
+        for op in case['ops']:
+            if op[0] == 1: kind = KIND_NAMES.get(op[2], 'k'); break
+    tok = {}; fresh = [0]; seen = {}
+    def new():
+        fresh[0] += 1; return fresh[0]
+    thrown_op = None
+    prev = None
+    def hsig(v):
+        # after a scripted item-copy failure every hygiene event is attributed to the operation that threw
+        if thrown_op: return '%s_not_exception_safe_%s' % (thrown_op, kind)
+        return flag_sig(v) + '_' + kind
+    for i, op in enumerate(case['ops']):
+        if i >= len(irecs): break
+        R = irecs[i]['R']; F = irecs[i].get('F') or [0, 0]
+        c = op[0]
+        if c == 99:
+            if len(R) >= 5:
+                if thrown_op and (R[0] != 0 or R[1] != 0 or R[2] != 0 or R[3] != 0):
+                    fails.append(dict(sig='%s_not_exception_safe_%s' % (thrown_op, kind),
+                                      what='%s: after the item copy constructor threw inside %s, %d items and %d blocks / %d bytes are still alive when every object has been destroyed'
+                                           % (kind, thrown_op, R[0], R[3], R[2]), op_index=i))
+                else:
+                    if R[0] != 0:
+                        fails.append(dict(sig='leak_items_' + kind, what='%s: %d items still alive after every object was destroyed' % (kind, R[0]), op_index=i))
+                    if R[1] != 0 or R[2] != 0 or R[3] != 0:
+                        fails.append(dict(sig='leak_blocks_' + kind, what='%s: %d blocks / %d bytes still allocated after every object was destroyed' % (kind, R[3], R[2]), op_index=i))
+                if R[4] != 0:
+                    fails.append(dict(sig=hsig(R[4]), what='%s: hygiene flags %x (%s) while destroying all objects' % (kind, R[4], flag_sig(R[4])), op_index=i))
+            continue
+        if c == 14:
+            if len(R) >= 5 and R[4] != 0:
+                fails.append(dict(sig=hsig(R[4]), what='%s: hygiene flags %x (%s) while serializing' % (kind, R[4], flag_sig(R[4])), op_index=i))
+            if R and R[0] != -1 and op[1] in tok:
+                t = tok[op[1]]
+                if t in seen and seen[t][0] != R[0]:
+                    fails.append(dict(sig='value_changed_%s_%s' % (kind, seen[t][2]),
+                                      what='%s: register %d must still hold the value observed at op %d (established by %s) but its serialized image changed'
+                                           % (kind, op[1], seen[t][1], seen[t][2]), op_index=i))
+                elif t not in seen:
+                    seen[t] = (R[0], i, tokwhy.get(t, 'construction'))
+            continue
+        if c == 20:
+            continue
+        status = R[0] if R else -1
+        threw = len(F) > 1 and F[1] > 0
+        if threw and thrown_op is None:
+            # copy construction, copy assignment (copy-and-swap) and assignment chains all run the copy constructor
+            thrown_op = {3: 'copy_ctor', 5: 'copy_ctor', 11: 'copy_ctor', 13: 'copy_ctor', 2: 'update', 7: 'merge'}.get(c, 'op%d' % c)
+        if len(R) >= 5 and R[4] != 0:
+            fails.append(dict(sig=hsig(R[4]), what='%s: hygiene flags %x (%s) raised by op %s' % (kind, R[4], flag_sig(R[4]), ' '.join('%x' % x for x in op)), op_index=i))
+        if threw:
+            if c in (3, 11) and prev is not None and len(R) >= 4 and (R[2] != prev[2] or R[3] != prev[3]):
+                fails.append(dict(sig='%s_not_exception_safe_%s' % (thrown_op, kind),
+                                  what='%s: the item copy constructor threw inside a copy construction; live items %d -> %d, item buffer slots %d -> %d (nothing may be left behind)'
+                                       % (kind, prev[2], R[2], prev[3], R[3]), op_index=i))
+        if len(R) >= 5: prev = R
+        if status != 1:
+            # refused or failed: no claim about the registers it names, except that untouched ones keep their value
+            for r in op[1:3]:
+                if c in (2, 5, 6, 7, 8, 9, 12, 13, 15) and r in tok: tok[r] = new()
+            if c in (3, 4, 16): tok.pop(op[1], None)
+            if c == 13 and op[2] in tok: tok[op[2]] = new()
+            continue
+        def give(dst, src, why):
+            tok[dst] = tok.get(src, new()); tokwhy.setdefault(tok[dst], why)
+        if c == 1: tok[op[1]] = new()
+        elif c in (2, 9, 12, 15): tok[op[1]] = new()
+        elif c == 3: give(op[1], op[2], 'copy construction')
+        elif c == 4:
+            give(op[1], op[2], 'move construction'); tokwhy[tok[op[1]]] = 'move construction'
+            if op[3] == 0: tok.pop(op[2], None)
+            else: give(op[2], op[4], 'copy assignment to a moved-from object'); tokwhy[tok[op[2]]] = 'copy assignment to a moved-from object'
+        elif c == 5:
+            why = 'self-assignment' if op[1] == op[2] else 'copy assignment'
+            give(op[1], op[2], why); tokwhy[tok[op[1]]] = why
+        elif c == 6:
+            if op[1] == op[2]: tok[op[1]] = new()
+            else:
+                give(op[1], op[2], 'move assignment'); tokwhy[tok[op[1]]] = 'move assignment'
+                if op[3] == 0: tok.pop(op[2], None)
+                else: give(op[2], op[4], 'copy assignment to a moved-from object'); tokwhy[tok[op[2]]] = 'copy assignment to a moved-from object'
+        elif c == 7: tok[op[1]] = new()
+        elif c == 8:
+            tok[op[1]] = new()
+            if op[3] == 0: tok.pop(op[2], None)
+            else: give(op[2], op[4], 'copy assignment to a moved-from object')
+        elif c == 10: tok.pop(op[1], None)
+        elif c == 13:
+            give(op[2], op[3], 'assignment chain'); tokwhy[tok[op[2]]] = 'assignment chain'
+            give(op[1], op[2], 'assignment chain')
+        elif c == 16: tok[op[1]] = new()
+        # 11: nothing changes
+    return fails
+tokwhy = {}
+
+def crash_sig_vsem(case, text):
+    ops = case['ops']
+    kinds = {}
+    for op in ops:
+        if op[0] == 1: kinds[op[1]] = op[2]
+    hll_self = any(op[0] == 5 and op[1] == op[2] and kinds.get(op[1]) == 7 for op in ops) or \
+               any(op[0] == 13 and kinds.get(op[1]) == 7 and (op[1] == op[2] or op[2] == op[3]) for op in ops)
+    asan = any(m in text for m in ('heap-use-after-free', 'AddressSanitizer', 'freed by thread', 'Shadow byte'))
+    if hll_self and asan:
+        return 'hll_self_assign'
+    hll_moved = any(op[0] in (4, 6, 8) and len(op) > 4 and op[3] == 1 and kinds.get(op[2]) == 7 and op[1] != op[2] for op in ops)
+    if hll_moved and 'null pointer' in text and 'HllSketch-internal.hpp' in text:
+        return 'hll_assign_to_moved_from'
+    armed = any(op[0] == 20 for op in ops)
+    if armed and any(m in text for m in ('scripted copy failure', 'terminate called', 'ABRT', 'abort')):
+        k = KIND_NAMES.get(case.get('kind', kinds.get(0, -1)), 'k')
+        return 'terminate_on_item_throw_%s' % k
+    return None
+
+FAMILIES = [dict(name='ledger', harness='drv_ledger.cpp', extract='Extract_ledger.v', model='model_ledger', gen=gen_ledger, oracle=oracle_ledger),
+            dict(name='vsem', harness='drv_ledger.cpp', extract=None, model=None, gen=gen_vsem, oracle=oracle_vsem, crash_sig=crash_sig_vsem)]
+
+def extra(chk):
+    """ebpps_sketch::merge(const&) with user allocator/item: compile and run harness/drv_ledger_eb.cpp (a compile-time defect is
+       reported with its own signature instead of taking the main harness down)."""
+    import os, vlib
+    bdir = os.path.join(chk.bdir, 'ebmerge'); os.makedirs(bdir, exist_ok=True)
+    fam = dict(name='ebmerge', harness='drv_ledger_eb.cpp')
+    exe = os.path.join(bdir, 'drv_ledger_eb')
+    rc, out, _ = vlib.sh('g++ %s %s -o %s' % (vlib.harness_flags(True), os.path.join(vlib.VERIF, 'harness', 'drv_ledger_eb.cpp'), exe), timeout=600)
+    chk.cov['families']['ebmerge'] = dict(cases=1, built=(rc == 0))
+    chk.cov['evaluations'] += 1
+    if rc != 0:
+        import re
+        unq = re.search(r"swap.{0,4} was not declared", out) is not None and 'ebpps_sketch_impl.hpp' in out
+        chk.report(fam, dict(id='ebmerge', ops=[]), 'ebpps_sketch<Item, talloc<Item>>::merge(const ebpps_sketch&) does not compile',
+                   dict(error=out[-1500:]), True, sig='ebpps_lvalue_merge_custom_alloc' if unq else None)
+        return
+    env = dict(os.environ); env['ASAN_OPTIONS'] = vlib.ASAN_ENV
+    rc, out, _ = vlib.sh([exe], timeout=120, env=env)
+    if rc != 0 or not out.startswith('OK 0 0 0'):
+        chk.report(fam, dict(id='ebmerge', ops=[]), 'ebpps merge by reference with a tracking allocator: ' + out[-300:], dict(output=out[-1500:]), True,
+                   sig='ebpps_lvalue_merge_unbalanced')
+    else:
+        chk.cov['traces_validated_against_impl'] += 1
 
 MANIFEST = dict(level_text='', level_note='', design_ref='DESIGN.md section 5 C19')
